@@ -38,17 +38,33 @@ def overlapExt (a b : String) : Outcome Bool :=
   let v2 := parseInt64Lossy (arr2.getD 3 "")
   overlapExtAt (if h1 > h2 then h2 else h1) (if v1 > v2 then v2 else v1) a b
 
-/-- first error or first `true` in evaluation order; `false` when the list is exhausted -/
-def firstHit : List (Outcome Bool) → Outcome Bool
-  | [] => .ok false
-  | .ok true :: _ => .ok true
-  | .ok false :: r => firstHit r
-  | .err :: _ => .err
-  | .panic :: _ => .panic
+/-- every ID of the list is a well-formed extended ID (`validateExtendedSpatialIds`) -/
+def allExt (l : List String) : Bool := l.all fun s => (parseExt s).isSome
 
-/-- `CheckExtendedSpatialIdsArrayOverlap`: the double loop (lazy in Go; the model lists the pairs in loop order) -/
+/-- inner loop of `CheckExtendedSpatialIdsArrayOverlap` for one element `a` of the first list (`restA` = the elements of
+the first list after `a`): first error wins; at the first overlapping pair the elements not compared yet are validated -/
+def ovInner (a : String) (restA : List String) : List String → Outcome Bool
+  | [] => .ok false
+  | b :: bs =>
+    match overlapExt a b with
+    | .ok true => if allExt restA && allExt bs then .ok true else .err
+    | .ok false => ovInner a restA bs
+    | .err => .err
+    | .panic => .panic
+
+def ovOuter (bs : List String) : List String → Outcome Bool
+  | [] => .ok false
+  | a :: as =>
+    match ovInner a as bs with
+    | .ok false => ovOuter bs as
+    | r => r
+
+/-- `CheckExtendedSpatialIdsArrayOverlap` (after the fix: when one list is empty no pair is compared, so the other list is
+validated explicitly) -/
 def overlapExtArr (as bs : List String) : Outcome Bool :=
-  firstHit (as.flatMap fun a => bs.map fun b => overlapExt a b)
+  match ovOuter bs as with
+  | .ok false => if (as.isEmpty || bs.isEmpty) && !(allExt as && allExt bs) then .err else .ok false
+  | r => r
 
 /-! ### spatial IDs through the radix tree -/
 
@@ -90,18 +106,14 @@ def Key.isPrefixOf (k q : Key) : Bool :=
 /-- `Tree.IsOverlap`: some stored key is an ancestor-or-equal or a descendant of the query -/
 def treeOverlap (stored : List Key) (q : Key) : Bool := stored.any fun k => k.isPrefixOf q || q.isPrefixOf k
 
-/-- `CheckSpatialIdsArrayOverlap` (after the fixes) -/
+/-- `CheckSpatialIdsArrayOverlap` (after the fixes): both lists are validated completely, then the tree is queried -/
 def overlapSpArr (as bs : List String) : Outcome Bool :=
   match as.mapM spKey with
   | none => .err
   | some stored =>
-    let rec go : List String → Outcome Bool
-      | [] => .ok false
-      | b :: r =>
-        match spKey b with
-        | none => .err
-        | some q => if as.isEmpty then go r else if treeOverlap stored q then .ok true else go r
-    go bs
+    match bs.mapM spKey with
+    | none => .err
+    | some qs => if as.isEmpty then .ok false else .ok (qs.any fun q => treeOverlap stored q)
 
 def overlapSp (a b : String) : Outcome Bool := overlapSpArr [a] [b]
 
